@@ -7,6 +7,7 @@ package main
 
 import (
 	"go/constant"
+	"go/types"
 	"strings"
 
 	"golang.org/x/tools/go/ssa"
@@ -456,4 +457,64 @@ func ordinalInBlockReturns(fn *ssa.Function, ret *ssa.Return) string {
 		}
 	}
 	return ""
+}
+
+func init() {
+	reg("C17-R6", "optimistic validation sees every change: a skip-list node's update counter (page LSN) is the only thing validateNoChangeAndGetLock compares, so SkipListBlockPage.Insert / Remove bump the receiver's counter (SetLSN(GetLSN()+1), or SplitNode, which bumps every corner node) on every path on which they change the receiver's entries (InsertInner / RemoveInner / SetEntry) before the latch is released", func(w *World, r *Report) {
+		a := w.A()
+		pkg := "storage/page/skip_list_page"
+		muts := []*types.Func{w.MethodObj(pkg, "SkipListBlockPage", "InsertInner"), w.MethodObj(pkg, "SkipListBlockPage", "RemoveInner"), w.MethodObj(pkg, "SkipListBlockPage", "SetEntry")}
+		split := w.MethodObj(pkg, "SkipListBlockPage", "SplitNode")
+		lt := w.LockTable()
+		_ = lt
+		n := 0
+		for _, name := range []string{"Insert", "Remove"} {
+			fn := w.Fn(pkg, "SkipListBlockPage", name)
+			recv := ssa.Value(fn.Params[0])
+			onRecv := func(v ssa.Value) bool {
+				return DependsOn(v, func(x ssa.Value) bool { return x == recv })
+			}
+			isBump := func(in ssa.Instruction) bool {
+				c, ok := in.(*ssa.Call)
+				if !ok {
+					return false
+				}
+				o := CalleeObj(c)
+				if o == split && onRecv(c.Call.Args[0]) {
+					return true
+				}
+				if o != a.PageSetLSN || !onRecv(c.Call.Args[0]) {
+					return false
+				}
+				return DependsOn(c.Call.Args[1], func(x ssa.Value) bool {
+					cc, ok := x.(*ssa.Call)
+					return ok && CalleeObj(cc) == a.PageGetLSN && onRecv(cc.Call.Args[0])
+				})
+			}
+			isUnlatchRecv := func(in ssa.Instruction) bool {
+				c, ok := in.(*ssa.Call)
+				if !ok || CalleeObj(c) == nil || CalleeObj(c).Name() != "WUnlatch" {
+					return isReturn(in)
+				}
+				return onRecv(c.Call.Args[0])
+			}
+			for _, m := range muts {
+				for _, s := range sitesCalling(fn, m) {
+					c := s.(*ssa.Call)
+					if !onRecv(c.Call.Args[0]) || DependsOn(c.Call.Args[0], IsCallTo(split)) {
+						continue // another node (a node fresh from SplitNode is not yet known to any validator)
+					}
+					n++
+					site := s
+					before := (&PathQ{Fn: fn, Avoid: isBump, Target: func(x ssa.Instruction) bool { return x == site }}).FromEntry()
+					var after *Witness
+					if before != nil {
+						after = (&PathQ{Fn: fn, Avoid: isBump, Target: isUnlatchRecv}).FromAfter([]ssa.Instruction{site})
+					}
+					r.Check(before == nil || after == nil, "SkipListBlockPage."+name+":counter-bumped-with-"+m.Name()+ordinalIn(fn, s, m), "the node's update counter changes whenever its entries change under the latch", "the entries are changed at "+w.InstrPos(s)+" and the latch is released without bumping the counter (a concurrent validate-and-relatch does not notice the change): "+w.DescribeWitness(fn, after))
+				}
+			}
+		}
+		r.Floor("entry mutations of the receiver in SkipListBlockPage.Insert/Remove", n, 3)
+	})
 }
